@@ -255,6 +255,7 @@ static int case_failed, replay_by_family, samples_out;
 static void report(const char *what, const filt *f, const char *dir, uint32_t param, const uint8_t *x, size_t n, const char *fmt, ...) {
 	char key[160], detail[1800], hx[1500];
 	case_failed = 1;
+	if (h_fail_printed >= 200 && !verbose) { h_fails++; return; }	// already plenty of examples: only count
 	snprintf(key, sizeof key, "%s:%s:%s", what, f->name, dir);
 	va_list ap; va_start(ap, fmt); vsnprintf(detail, sizeof detail, fmt, ap); va_end(ap);
 	if (n <= 700 && !replay_by_family) {
